@@ -4,6 +4,7 @@
 -/
 import AmVerif.Model.Machine
 import AmVerif.Model.QueueProto
+import AmVerif.Model.DisposeProto
 import AmVerif.Model.Pipes
 import AmVerif.Model.History
 import AmVerif.Model.Dbg
@@ -131,6 +132,8 @@ structure DState where
   fuel : Nat := 200
   codec : CodecState := {}
   qp : QP.St := { flag := false, queue := 0, pcs := [] }
+  dp : DP.St := {}
+  dpFixed : Bool := true
   pipe : Pipes.Target := {}
   hcfg : Hist.Cfg := {}
   dbgc : Dbg.Client := { n := 0, exc := 0 }
@@ -266,6 +269,49 @@ def stepQP (d : DState) (toks : List String) : Option (DState × String) :=
       | some s' =>
         some ({ d with qp := s' },
           s!"pc={showPc (s'.pcs.getD i .idle)} flag={if s'.flag then 1 else 0} q={s'.queue} holders={QP.holders s'}")
+  | _ => none
+
+/-- disposal protocol commands (C13): `dp init <fixed 0|1>`, `dp spawn <caller|dispose|force>`,
+    `dp step <i>` (one step) / `dp run <i> <pc>` (steps of goroutine `i` until its pc is `pc`, at most 16). -/
+def showTh : DP.Th → String
+  | .caller .idle => "idle" | .caller .pre => "pre" | .caller .cas => "cas" | .caller .loop => "loop"
+  | .caller .running => "running" | .caller .release => "release" | .caller .recheck => "recheck"
+  | .caller .done => "done"
+  | .disp _ .start => "start" | .disp _ .enter => "enter" | .disp _ .wait => "wait" | .disp _ .gate => "gate"
+  | .disp _ .body => "body" | .disp _ .tail => "tail" | .disp _ .done => "done"
+
+def showDP (s : DP.St) (i : Nat) : String :=
+  let b := fun (x : Bool) => if x then 1 else 0
+  s!"pc={showTh (s.ths.getD i (.caller .done))} lock={b s.lock} disposing={b s.disposing} disposed={b s.disposed} q={s.queue} started={s.started} running={DP.running s} body={s.bodyRuns}"
+
+def dpRunUntil (fixed : Bool) (s : DP.St) (i : Nat) (pc : String) : Nat → DP.St
+  | 0 => s
+  | fuel + 1 =>
+    if showTh (s.ths.getD i (.caller .done)) == pc then s
+    else match DP.step fixed s i with
+      | none => s
+      | some s' => dpRunUntil fixed s' i pc fuel
+
+def stepDP (d : DState) (toks : List String) : Option (DState × String) :=
+  match toks with
+  | ["dp", "init", fx] => some ({ d with dp := {}, dpFixed := fx == "1" }, "ok")
+  | ["dp", "spawn", k] =>
+    let t : DP.Th := if k == "dispose" then .disp false .start else if k == "force" then .disp true .enter
+      else .caller .idle
+    some ({ d with dp := { d.dp with ths := d.dp.ths ++ [t] } }, s!"thread={d.dp.ths.length}")
+  | ["dp", "step", i] =>
+    match i.toNat? with
+    | none => some (d, "bad-op")
+    | some i =>
+      match DP.step d.dpFixed d.dp i with
+      | none => some (d, "stuck")
+      | some s' => some ({ d with dp := s' }, showDP s' i)
+  | ["dp", "run", i, pc] =>
+    match i.toNat? with
+    | none => some (d, "bad-op")
+    | some i =>
+      let s' := dpRunUntil d.dpFixed d.dp i pc 16
+      some ({ d with dp := s' }, showDP s' i)
   | _ => none
 
 /-- pipe commands (C18): `pipes init <new|old> <flat 0|1> <act 0|1>`,
@@ -438,6 +484,9 @@ def stepLine (d : DState) (line : String) : DState × String :=
   | some r => r
   | none =>
   match stepQP d toks0 with
+  | some r => r
+  | none =>
+  match stepDP d toks0 with
   | some r => r
   | none =>
   match stepHelpers toks0 with
